@@ -1086,6 +1086,22 @@ theorem revoke_flagged_key_never_trusted (P : Params) (cfg : List Key) (evs : Li
     simp only [runHist, List.foldl_cons]
     exact ih _ (step_noRevInv P cfg s e h)
 
+/-- **RRSIGs over the extra RRsets that name another zone as signer count for
+nothing**: an extra RRset whose only signatures carry a foreign signer name is an
+unsigned one, so (with `accepted_needs_trusted_signature`) the whole answer is
+rejected; adding such signatures to any RRset never changes the verdict. -/
+theorem extra_foreign_signer_names_count_for_nothing (cand : List Key) (f : Fetch) (e : Extra)
+    (named : List NamedSig) (h : ∀ s ∈ named, s.signer ≠ 0) (pre post : List Extra) :
+    verifyFetched cand { f with extras := pre ++ { e with signers := e.signers ++ namedSigners named } :: post } =
+    verifyFetched cand { f with extras := pre ++ e :: post } := by
+  have : namedSigners named = [] := by
+    unfold namedSigners
+    rw [List.map_eq_nil_iff]
+    apply List.filter_eq_nil_iff.mpr
+    intro s hs
+    simpa using h s hs
+  rw [this, List.append_nil]
+
 /-! ## the consumer side: what clients get -/
 
 /-- **serving_fails_closed.** With no trust anchor a validating lookup is never
@@ -1732,5 +1748,11 @@ example : ∀ k ∈ [kA], k.revoke = false :=
 example : verifyFetched [kA] { keys := [kA, kP], signers := effectiveSigners [] [⟨kA, -86400, 86400, 1⟩] } = .none := by decide
 example : verifyFetched [kA] { keys := [kA, kP], signers := effectiveSigners [] [⟨kA, -86400, 86400, 1⟩, ⟨kA, -86400, 86400, 0⟩] }
     = .full := by decide
+
+-- the genuine root set plus a TXT RRset whose only RRSIG is by the anchor's key but names another zone as signer
+example : verifyFetched [kA] { keys := [kA], signers := [kA], extras := [{ signers := [] ++ namedSigners [⟨kA, 7⟩] }] } = .none := by
+  decide
+example : verifyFetched [kA] { keys := [kA], signers := [kA], extras := [{ signers := [] ++ namedSigners [⟨kA, 0⟩] }] } = .full := by
+  decide
 
 end SdnsVerif.Props.C09
